@@ -412,7 +412,7 @@ def gen_simple_script(rng):
                             gen.gen_args(rng, True, 2, maxn=2)])
                 tok[0] += 1
         elif r < 0.6:
-            ops.append(['receive', rng.choice([0.5, 1, 5])])
+            ops.append(['receive', rng.choice([0.5, 1, 5, 0, 0])])
         elif r < 0.72:
             ops.append(['emit', 'ev%d' % rng.randint(0, 2),
                         rng.choice([None, 'd', [1, 2], {'k': tok[0]}])])
